@@ -109,6 +109,10 @@ char * __wrap_strndup(const char * s, size_t n) {
     return r;
 }
 
+/* a library compiled as C90 has no strndup in its libc headers and duplicates texts with its own OUR_strndup (malloc + copy): same ledger */
+char * __wrap_OUR_strndup(const char * s, size_t n);
+char * __wrap_OUR_strndup(const char * s, size_t n) { return __wrap_strndup(s, n); }
+
 void __wrap_free(void * p) {
     int i;
     if (!p) { if (led.on) CNT(K_FREE_NULL); return; }
